@@ -32,6 +32,18 @@ constraint with methods auto / linprog / highs / highs-ds / highs-ipm: nothing m
 recursion limit must be what it was, coefficients must equal the ones the harness accumulated itself and
 optima must equal SciPy's linprog on that independent data.
 
+Label dimension (checklist 30 × depth): the terms are vector / matrix nodes (c@v, v.sum(), v·v, v·w, ‖v‖₂, ‖v‖₁, Σvᵏ, Σf(v),
+vᵀQv, B.sum(), ‖B‖_F) on DISTINCT VIEWS WITH EQUAL `.name` — part-views of one matrix row / column (X[i,:2], X[i,2:]: both
+'X[i,:]'), same-range slices with different steps / reversed (x[::2], x[::3], x[::-1]: all 'x[0:n]'), tails ('x[a:n]' with the
+stop omitted / = n / = 0 backwards), slices of slices, a vector constructed under the name of a view, strided blocks — built
+left-deep / balanced / vectorised / zigzag / right-deep, below the switch with lowered thresholds and above it (n ≥ 401), wrapped
+(k·, /k, K−, −, +K).  Every consumer is judged against the harness's own bookkeeping over the element names: get_all_variables,
+Problem.variables / n_variables (formula as objective and as constraint), evaluate / compiled value (also compiled for
+Problem.variables: what the NLP route does), compile_jacobian / compile_gradient / gradient() against hand-written NumPy partials,
+degree / is_linear, LP solves (optimum over the box = sum of the negative coefficients, vertex values, exactly the element names as
+solution.values keys, as constraint against SciPy's linprog on the hand-computed row) and NLP solves of the separable quadratic
+Σ v·v − 2c@v (minimiser sⱼ/mⱼ by hand).
+
 Tie to the Lean model (n ≤ 900): variables at both thresholds, gradient with the switch at both
 thresholds (structural), the three depth estimates, compiled IR + which builder ran.
 """
@@ -695,6 +707,19 @@ def run(ctx) -> core.Report:
         else:
             rep.nontrivial.add(("lp-route", kind, shape, wrapper, n, nvars))
     rep.histogram["wall_lp_route_s"] = round(time.time() - t_start, 1)
+    # ---- terms on distinct views with equal labels: every consumer, every association, below and above the switch depth
+    LABEL_STATS.clear()
+    for model, prof, op, wrapper, n, thr, fseed, solve in labels_plan(rng, thorough):
+        r = labels_case(model, prof, op, wrapper, n, thr, fseed, solve)
+        rep.histogram["labels"] = rep.histogram.get("labels", 0) + 1
+        rep.histogram[f"labels:{model}"] = rep.histogram.get(f"labels:{model}", 0) + 1
+        if r is not None:
+            fails.append(r)
+        else:
+            rep.nontrivial.add(("labels", model, prof, op, wrapper, n, thr))
+    for k2, v in LABEL_STATS.items():
+        rep.histogram["labels:" + k2] = v
+    rep.histogram["wall_labels_s"] = round(time.time() - t_start, 1)
     # ---- lifetime: one model rebuilt from fresh objects, caches never cleared
     for fam, op, n in ([("sq", "+", 401), ("un:exp", "*", 48), ("vec:dot", "-", 401), ("aud:shared", "+", 48), ("param", "/", 401),
                         ("vec:view:fro-sym", "+", 48)] if thorough else [(rng.choice(["sq", "vec:dot", "param"]), rng.choice("+-*/"), 401),
@@ -1496,6 +1521,439 @@ def lp_route_plan(rng, thorough):
     return out
 
 
+# ----------------------------------------------------------------------------- equal labels, different elements × depth
+
+# checklist 30 × depth: the terms are vector / matrix nodes on DISTINCT VIEWS WITH EQUAL `.name` (a label is not an identity)
+LABEL_MODELS = ["row-parts", "col-parts", "steps", "tails", "slice-of-slice", "look-alike", "blocks"]
+LABEL_PROFILES = {
+    "linear": ["lc", "vs", "k*vs", "lc-node"],               # affine: the LP route, optimum over the box by hand
+    "lsq": ["lsq"],                                          # Σ v·v − 2 c@v: strictly convex, separable, optimum by hand
+    "mixed": ["lc", "dot-self", "dot-pair", "l2", "l1", "ps", "us", "vs", "qf", "dot-expr"],
+    "matrix": ["msum", "fro", "mse"],                        # the "blocks" model (matrix views)
+}
+LABEL_WRAPS = ["none", "k*", "K-", "neg", "+K", "/k"]
+LABEL_COEFS = [0.25, 0.5, -0.75, 1.5, -2.0, 3.0, -0.25, 1.0, -1.25, 0.75]
+LABEL_STATS: dict = {}   # what the cases of this run exercised (reported in the histogram)
+
+
+def _stat(key):
+    LABEL_STATS[key] = LABEL_STATS.get(key, 0) + 1
+
+
+def label_groups(model, G, rng):
+    """(groups, declared): G groups of ≥ 2 view factories; the views of one group have EQUAL `.name` and pairwise
+    different element lists; every call of a factory makes a fresh view object (what `X[i, :2]` in a user's loop does).
+    All variables live in the box [0, 1].  declared: every Variable of the model"""
+    from optyx import VectorVariable, MatrixVariable
+
+    groups, declared = [], []
+
+    def pick(cands, k):
+        """k of the candidate slices, pairwise different element lists"""
+        rng.shuffle(cands)
+        return cands[:k]
+
+    if model in ("row-parts", "col-parts"):
+        C = rng.choice([4, 5, 6])
+        X = MatrixVariable("X", G, C, lb=0.0, ub=1.0) if model == "row-parts" else MatrixVariable("X", C, G, lb=0.0, ub=1.0)
+        declared = [v for row in X._variables for v in row]
+        for i in range(G):
+            a = rng.randint(1, C - 1)
+            pats = [[slice(None, a), slice(a, None)],
+                    [slice(None, None, 2), slice(1, None, 2)],
+                    [slice(None, a), slice(a, None), slice(None, None, -1)],
+                    [slice(None, a), slice(None)],
+                    [slice(a, None), slice(None, a), slice(a - 1, a + 1)]]
+            sls = rng.choice(pats)
+            if rng.random() < 0.5:
+                sls = sls[::-1]
+            if model == "row-parts":
+                groups.append([(lambda i=i, s=s: X[i, s]) for s in sls])
+            else:
+                groups.append([(lambda i=i, s=s: X[s, i]) for s in sls])
+    elif model in ("steps", "tails", "slice-of-slice", "look-alike"):
+        for g in range(G):
+            m = rng.choice([6, 7, 9, 12])
+            v = VectorVariable(f"v{g}", m, lb=0.0, ub=1.0)
+            declared += list(v._variables)
+            if model == "steps":
+                if rng.random() < 0.5:   # all 'v[0:m]'
+                    sls = pick([slice(None, None, 2), slice(None, None, 3), slice(None, None, -1), slice(0, m),
+                                slice(None, None, -2), slice(0, m, 4)], rng.choice([2, 3, 4]))
+                else:                    # all 'v[a:b]'
+                    a = rng.randint(0, 2); b = rng.randint(a + 4, m)
+                    sls = pick([slice(a, b), slice(a, b, 2), slice(a, b, 3)], rng.choice([2, 3]))
+                groups.append([(lambda v=v, s=s: v[s]) for s in sls])
+            elif model == "tails":       # 'v[a:m]': stop omitted, stop = m, stop = 0 with a negative step (`stop or size`)
+                a = rng.randint(2, m - 3)
+                sls = pick([slice(a, None), slice(a, None, 2), slice(a, 0, -1), slice(a, m, 3)], rng.choice([2, 3]))
+                groups.append([(lambda v=v, s=s: v[s]) for s in sls])
+            elif model == "slice-of-slice":
+                a = rng.randint(0, 1); b = rng.randint(a + 5, m)
+                sls = pick([slice(None, None, 2), slice(None, None, 3), slice(None, None, -1), slice(0, b - a)], rng.choice([2, 3]))
+                groups.append([(lambda v=v, a=a, b=b, s=s: v[a:b][s]) for s in sls])
+            else:                        # a vector whose constructor name looks like a view of another one
+                k = rng.randint(2, m - 2)
+                z = VectorVariable(f"v{g}[0:{k}]", k, lb=0.0, ub=1.0)
+                declared += list(z._variables)
+                fs = [(lambda v=v, k=k: v[0:k]), (lambda z=z: z)]
+                if rng.random() < 0.5:
+                    fs.append(lambda v=v, k=k: v[0:k:2])
+                rng.shuffle(fs)
+                groups.append(fs)
+    elif model == "blocks":
+        R, C = rng.choice([4, 5, 6]), rng.choice([3, 4])
+        for g in range(G):
+            X = MatrixVariable(f"B{g}", R, C, lb=0.0, ub=1.0)
+            declared += [v for row in X._variables for v in row]
+            c = rng.randint(2, C)
+            rows = pick([slice(0, R), slice(0, R, 2), slice(0, R, 3)], rng.choice([2, 3]))
+            cols = rng.choice([slice(0, c), slice(0, c, 2)]) if c > 2 else slice(0, c)
+            groups.append([(lambda X=X, r=r, c=c: X[r, 0:c]) for r in rows] + ([(lambda X=X, R=R, cols=cols: X[0:R, cols])] if c > 2 else []))
+    else:
+        raise KeyError(model)
+    return groups, declared
+
+
+def view_names(v):
+    vs = v._variables
+    return [u.name for row in vs for u in row] if vs and isinstance(vs[0], list) else [u.name for u in vs]
+
+
+def label_terms(kind, mk, mk_partner, rng):
+    """the terms of one slot: [(expression, f(point) -> value, g(point) -> {name: partial}, {name: coefficient} | None)]
+    — value, derivative and coefficients are the harness's own NumPy arithmetic on the element names of the view"""
+    from optyx.core import vectors as V
+    from optyx.core import matrices as M
+
+    v = mk()
+    nv = view_names(v)
+    s = len(nv)
+    c = np.array([rng.choice(LABEL_COEFS) for _ in range(s)])
+
+    def at(pt, names=nv):
+        return np.array([pt[a] for a in names], dtype=float)
+
+    def scatter(*pairs):
+        out = {}
+        for names, arr_ in pairs:
+            for a, d in zip(names, arr_):
+                out[a] = out.get(a, 0.0) + float(d)
+        return out
+
+    if kind in ("lc", "lc-node"):
+        e = (c @ v) if kind == "lc" else V.LinearCombination(c, v)
+        return [(e, lambda pt: float(c @ at(pt)), lambda pt: scatter((nv, c)), scatter((nv, c)))]
+    if kind in ("vs", "k*vs"):
+        k = 1.0 if kind == "vs" else rng.choice([2.0, -0.5, 4.0, -1.5])
+        e = v.sum() if kind == "vs" else k * v.sum()
+        return [(e, lambda pt: k * float(at(pt).sum()), lambda pt: scatter((nv, [k] * s)), scatter((nv, [k] * s)))]
+    if kind == "lsq":
+        t = np.array([rng.randint(1, 7) / 8 for _ in range(s)])
+        v2 = mk() if rng.random() < 0.5 else v
+        return [(v.dot(v), lambda pt: float(at(pt) @ at(pt)), lambda pt: scatter((nv, 2 * at(pt))), None),
+                ((-2.0 * t) @ v2, lambda pt: float(-2.0 * t @ at(pt)), lambda pt: scatter((nv, -2.0 * t)), scatter((nv, -2.0 * t)))]
+    if kind == "dot-self":
+        return [(v.dot(v), lambda pt: float(at(pt) @ at(pt)), lambda pt: scatter((nv, 2 * at(pt))), None)]
+    if kind in ("dot-pair", "dot-expr"):
+        w = mk_partner()
+        nw = view_names(w)
+        if len(nw) != s:   # no equally long partner in the group: the view against itself, reversed
+            w = v[::-1]
+            nw = view_names(w)
+        if kind == "dot-pair":
+            e = V.DotProduct(v, w)
+            return [(e, lambda pt: float(at(pt) @ at(pt, nw)), lambda pt: scatter((nv, at(pt, nw)), (nw, at(pt))), None)]
+        e = V.DotProduct(v * 0.5, w + 1.0)
+        return [(e, lambda pt: float(0.5 * at(pt) @ (at(pt, nw) + 1.0)),
+                 lambda pt: scatter((nv, 0.5 * (at(pt, nw) + 1.0)), (nw, 0.5 * at(pt))), None)]
+    if kind == "l2":
+        return [(V.L2Norm(v), lambda pt: float(np.sqrt(at(pt) @ at(pt))),
+                 lambda pt: scatter((nv, at(pt) / np.sqrt(at(pt) @ at(pt)))), None)]
+    if kind == "l1":
+        return [(V.L1Norm(v), lambda pt: float(np.abs(at(pt)).sum()), lambda pt: scatter((nv, np.sign(at(pt)))), None)]
+    if kind == "ps":
+        return [(V.VectorPowerSum(v, 3), lambda pt: float((at(pt) ** 3).sum()), lambda pt: scatter((nv, 3 * at(pt) ** 2)), None)]
+    if kind == "us":
+        return [(V.VectorUnarySum(v, "sin"), lambda pt: float(np.sin(at(pt)).sum()), lambda pt: scatter((nv, np.cos(at(pt)))), None)]
+    if kind == "qf":
+        Q = np.array([[(0.5 if i == j else 0.0) + 0.125 * ((i + 2 * j) % 3 - 1) for j in range(s)] for i in range(s)])
+        return [(M.QuadraticForm(v, Q), lambda pt: float(at(pt) @ Q @ at(pt)), lambda pt: scatter((nv, (Q + Q.T) @ at(pt))), None)]
+    if kind == "msum":
+        return [(M.MatrixSum(v), lambda pt: float(at(pt).sum()), lambda pt: scatter((nv, [1.0] * s)), None)]
+    if kind == "fro":
+        return [(M.FrobeniusNorm(v), lambda pt: float(np.sqrt(at(pt) @ at(pt))),
+                 lambda pt: scatter((nv, at(pt) / np.sqrt(at(pt) @ at(pt)))), None)]
+    if kind == "mse":
+        return [((v * v).sum(), lambda pt: float(at(pt) @ at(pt)), lambda pt: scatter((nv, 2 * at(pt))), None)]
+    raise KeyError(kind)
+
+
+def labels_formula(model, profile, op, wrapper, n, fseed, build):
+    """one build of the formula of (model, profile, op, wrapper, n, seed) from fresh objects, and what the harness knows
+    about it from its own bookkeeping: element names, value / gradient functions, affine coefficients (linear profile),
+    separable quadratic data (lsq profile)"""
+    rng = core.Rng(fseed)
+    G = max(1, min(rng.choice([1, 2, 3, 5, 8, max(2, n // 4)]), n // 2))
+    groups, declared = label_groups(model, G, rng)
+    kinds = LABEL_PROFILES["matrix" if model == "blocks" else profile]
+    per = 2 if kinds == ["lsq"] else 1
+    slots = [(g, j) for g in range(len(groups)) for j in range(len(groups[g]))]
+    order = rng.choice(["grouped", "interleaved", "shuffled"])
+    if order == "interleaved":
+        slots.sort(key=lambda gj: (gj[1], gj[0]))
+    elif order == "shuffled":
+        rng.shuffle(slots)
+    slots = slots[: max(2, -(-n // per))]
+    while len(slots) * per < n:
+        g = rng.randrange(len(groups))
+        slots.append((g, rng.randrange(len(groups[g]))))
+    items = []
+    for i, (g, j) in enumerate(slots):
+        kind = kinds[(i + fseed) % len(kinds)] if rng.random() < 0.7 else rng.choice(kinds)
+        partner = groups[g][(j + 1) % len(groups[g])]
+        items += label_terms(kind, groups[g][j], partner, rng)
+    sub = op == "-"
+    signs = [1.0] + [(-1.0 if sub else 1.0)] * (len(items) - 1)
+    ts = [it[0] for it in items]
+    if build == "left":
+        e = build_left(op, ts)
+    elif build == "balanced":
+        e = build_balanced(op, ts)
+    elif build == "vector":
+        e = build_vector(op, ts)
+    elif build == "zigzag":
+        e = build_zigzag(op, ts)
+    elif build == "right":
+        e = build_right(op, ts)
+    else:
+        raise KeyError(build)
+    k, K0 = rng.choice([2.0, 0.5, 4.0]), rng.choice([7.5, -2.25])
+    a, b = {"none": (1.0, 0.0), "k*": (k, 0.0), "/k": (1.0 / k, 0.0), "K-": (-1.0, K0), "neg": (-1.0, 0.0), "+K": (1.0, K0)}[wrapper]
+    if profile == "lsq" and a < 0:
+        a, b, wrapper = 1.0, 0.0, "none"   # keep the problem convex
+    if wrapper == "k*": e = k * e
+    elif wrapper == "/k": e = e / k
+    elif wrapper == "K-": e = K0 - e
+    elif wrapper == "neg": e = -e
+    elif wrapper == "+K": e = e + K0
+    fs, gs = [it[1] for it in items], [it[2] for it in items]
+
+    def value(pt):
+        return a * sum(sg * f(pt) for sg, f in zip(signs, fs)) + b
+
+    def scale(pt):
+        return abs(a) * sum(abs(f(pt)) for f in fs) + abs(b)
+
+    def grad(pt):
+        out = {}
+        for sg, g_ in zip(signs, gs):
+            for nm, d in g_(pt).items():
+                out[nm] = out.get(nm, 0.0) + a * sg * d
+        return out
+
+    names = sorted({nm for g_ in gs for nm in g_({u.name: 0.5 for u in declared})})
+    coef = None
+    if all(it[3] is not None for it in items):
+        coef = {nm: 0.0 for nm in names}
+        for sg, it in zip(signs, items):
+            for nm, d in it[3].items():
+                coef[nm] += a * sg * d
+    quad = None
+    if profile == "lsq" and model != "blocks":
+        # a·Σ_j (m_j x_j² − 2 s_j x_j) + b with a > 0 (op '+'): x_j* = s_j / m_j ∈ [1/8, 7/8]
+        mj, sj = {nm: 0.0 for nm in names}, {nm: 0.0 for nm in names}
+        for it in items:
+            if it[3] is None:
+                for nm in it[2]({u.name: 0.5 for u in declared}):
+                    mj[nm] += 1.0
+            else:
+                for nm, d in it[3].items():
+                    sj[nm] += -0.5 * d
+        quad = (mj, sj)
+    byname = {u.name: u for u in declared}
+    return {"expr": e, "n": len(items), "names": names, "value": value, "grad": grad, "scale": scale, "coef": coef, "const": b,
+            "quad": quad, "declared": declared, "vars": [byname[nm] for nm in names], "wrapper": wrapper}
+
+
+def labels_case(model, profile, op, wrapper, n, thr, fseed, solve):
+    """None = every consumer answers, on every association of the formula, what the harness computed by hand; else a failure dict"""
+    with Thresholds(thr):
+        return _labels_case(model, profile, op, wrapper, n, thr, fseed, solve)
+
+
+def _labels_case(model, profile, op, wrapper, n, thr, fseed, solve):
+    import optyx.core.autodiff as AD
+    import optyx.core.compiler as C
+    from optyx import Problem
+    from optyx.core.expressions import get_all_variables
+
+    base = {"family": "labels", "model": model, "profile": profile, "op": op, "wrapper": wrapper, "n": n, "thr": thr,
+            "seed": fseed, "solve": solve}
+    if profile == "lsq":
+        op = "+"
+    bnames = ["left", "balanced", "vector"] + (["zigzag"] if op == "+" and 3 <= n <= 401 else []) + (["right"] if op == "+" and n <= 30 else [])
+    prng = core.Rng(fseed * 7 + 1)
+    degs = {}
+    for bname in bnames:
+        F = labels_formula(model, profile, op, wrapper, n, fseed, bname)
+        e, names = F["expr"], F["names"]
+        if e is None:
+            continue
+        pt = {u.name: prng.randint(1, 7) / 8 + 1 / 16 for u in F["declared"]}
+        extra = [u for u in F["declared"] if u.name not in set(names)][:2]
+        V = list(F["vars"]) + extra
+        core.Rng(fseed + 5).shuffle(V)
+        x = np.array([pt[u.name] for u in V])
+        want_v, want_g, scale = F["value"](pt), F["grad"](pt), F["scale"](pt)
+        views = f"{bname} build of {F['n']} terms over same-named views ({model})"
+
+        def bad(what, **kw):
+            return dict(base, build=bname, what=f"{what}: {views}", **kw)
+
+        # ---- variable discovery: the expression, the problem (objective / constraint), the count
+        got, err = guarded(lambda: sorted(u.name for u in get_all_variables(e)))
+        if err or got != names:
+            return bad("get_all_variables is not the set of the elements of the views", got=err or f"{len(got)} variables",
+                       want=f"{len(names)} variables", missing=sorted(set(names) - set(got or []))[:6],
+                       spurious=sorted(set(got or []) - set(names))[:6])
+        other = F["vars"][0] * 1.0 + F["vars"][-1] * 0.5
+        for where, mk in (("objective", lambda: Problem().minimize(e)),
+                          ("constraint", lambda: Problem().minimize(other).subject_to(e <= want_v + 1.0))):
+            got, err = guarded(lambda: (lambda p: ([u.name for u in p.variables], p.n_variables))(mk()))
+            if err or sorted(got[0]) != names or got[1] != len(names):
+                return bad(f"Problem.variables / n_variables with the formula as {where} is not the set of the elements of the views",
+                           got=err or f"{got[1]} variables", want=f"{len(names)} variables",
+                           missing=sorted(set(names) - set(got[0] if got else []))[:6])
+        # ---- value: interpreter, compiled for a superset, compiled for Problem.variables (what the NLP route compiles)
+        pv, _ = guarded(lambda: Problem().minimize(e).variables)
+        for nm, fn in (("evaluate", lambda: K_fl(e.evaluate(dict(pt)))),
+                       ("compiled value", lambda: K_fl(C.compile_expression(e, V)(x))),
+                       ("value compiled for Problem.variables", lambda: K_fl(C.compile_expression(e, pv)(np.array([pt[u.name] for u in pv]))))):
+            got, err = guarded(fn)
+            if err or not close(got, want_v, scale):
+                return bad(f"{nm} differs from the hand-computed value", got=err or got, want=want_v, point=pt if len(pt) <= 40 else None)
+        # ---- derivatives: against the hand-computed partials
+        if F["n"] <= 60:
+            for nm, fn in (("compile_jacobian", lambda: arr(AD.compile_jacobian([e], V)(x))),
+                           ("compile_gradient", lambda: arr(C.compile_gradient(e, V)(x)))):
+                got, err = guarded(fn)
+                if err or len(got) != len(V):
+                    return bad(f"{nm} raised / has the wrong shape", got=err or len(got))
+                for j, u in enumerate(V):
+                    if not close(float(got[j]), want_g.get(u.name, 0.0), scale, rtol=1e-7):
+                        return bad(f"{nm} differs from the hand-computed derivative", wrt=u.name, got=float(got[j]),
+                                   want=want_g.get(u.name, 0.0))
+        for u in [F["vars"][0], F["vars"][-1], F["vars"][len(names) // 2]] + extra[:1]:
+            g, err = guarded(lambda: AD.gradient(e, u))
+            if err:
+                return bad(f"gradient() raised {err}", wrt=u.name)
+            if u.name not in want_g:
+                if not is_literal_zero(g):
+                    return bad("gradient w.r.t. an absent variable is not the literal 0", wrt=u.name)
+                continue
+            gv = grad_value(g, pt)
+            if gv is not None and not close(gv, want_g[u.name], scale, rtol=1e-7):
+                return bad("gradient() differs from the hand-computed derivative", wrt=u.name, got=gv, want=want_g[u.name])
+        # ---- degree / is_linear (vectorised sums: known finding F26b, compared with nothing)
+        d = read_degree(e)
+        if d[0] == "raise":
+            return bad(f"degree / is_linear raised {d[1]}")
+        if bname != "vector" and model != "blocks":
+            if F["coef"] is not None and d[1] is not True:
+                return bad("a sum of c@view / view.sum() terms is not classified linear", got=d)
+            degs[bname] = d
+            if d != degs[next(iter(degs))]:
+                return bad("degree / is_linear differs between builds", got=d, want=degs[next(iter(degs))])
+        if not solve:
+            continue
+        # ---- solve results
+        nlp = bname == "vector"   # F26b: the vectorised build of a linear formula takes the NLP route
+        if F["coef"] is not None and not (nlp and len(names) > 40):
+            coef = [F["coef"][nm] for nm in names]
+            want = F["const"] + sum(cj for cj in coef if cj < 0)
+            clear_caches()
+            with LinprogSpy() as spy:
+                sol, err = guarded(lambda: Problem().minimize(e).solve())
+            _stat("solve:linear-objective/" + ("nlp-route" if nlp else "lp-route") + ("/deep" if F["n"] >= 400 else ""))
+            if err:
+                return bad(f"solve (objective) raised {err}")
+            tol_o, tol_x = (2e-3, 2e-2) if nlp else (1e-6, 1e-6)
+            if not nlp and spy.calls == 0:
+                return bad("solve with a linear accumulation as objective did not take the LP route")
+            if "OPTIMAL" not in str(sol.status).upper() or sol.objective_value is None or abs(sol.objective_value - want) > tol_o * (1 + abs(want)):
+                return bad("solve: not the optimum over the box (sum of the negative coefficients)", got=(str(sol.status), sol.objective_value), want=want)
+            if sorted(sol.values) != names:
+                return bad("solution.values does not have exactly the elements of the views as keys", got=f"{len(sol.values)} keys",
+                           want=f"{len(names)} keys", missing=sorted(set(names) - set(sol.values))[:6])
+            for nm, cj in zip(names, coef):
+                if abs(cj) > 1e-9 and abs(float(sol.values[nm]) - (1.0 if cj < 0 else 0.0)) > tol_x:
+                    return bad("solution value is not the vertex of the box the coefficient selects", var=nm, got=float(sol.values[nm]),
+                               coefficient=cj)
+            if not nlp:
+                ocoef = [0.0] * len(names)
+                ocoef[0] += 1.0; ocoef[-1] += 0.5
+                r0 = 0.4 * sum(cj for cj in coef if cj > 0) + 0.6 * sum(cj for cj in coef if cj < 0)
+                want = scipy_lp(ocoef, 0.0, "min", [(coef, ">=", r0)], len(names))
+                if want is not None:
+                    clear_caches()
+                    sol, err = guarded(lambda: Problem().minimize(other).subject_to(e >= r0 + F["const"]).solve())
+                    _stat("solve:linear-constraint" + ("/deep" if F["n"] >= 400 else ""))
+                    if err:
+                        return bad(f"solve (constraint) raised {err}")
+                    if "OPTIMAL" not in str(sol.status).upper() or sol.objective_value is None or abs(sol.objective_value - want) > 1e-6 * (1 + abs(want)):
+                        return bad("solve with the formula as constraint: not SciPy's optimum on the hand-computed row",
+                                   got=(str(sol.status), sol.objective_value), want=want)
+                    if sorted(sol.values) != names:
+                        return bad("solution.values (formula as constraint) does not have exactly the elements of the views as keys",
+                                   got=f"{len(sol.values)} keys", want=f"{len(names)} keys")
+                    row = sum(F["coef"][nm] * float(sol.values[nm]) for nm in names)
+                    if row < r0 - 1e-6 * (1 + abs(r0)):
+                        return bad("solution violates the constraint built from the formula", got=row, rhs=r0)
+        if F["quad"] is not None and len(names) <= 60:
+            mj, sj = F["quad"]
+            xs = {nm: (min(1.0, max(0.0, sj[nm] / mj[nm])) if mj[nm] > 0 else (1.0 if sj[nm] > 0 else 0.0)) for nm in names}
+            want = F["value"]({**pt, **xs})
+            clear_caches()
+            sol, err = guarded(lambda: Problem().minimize(e).solve())
+            _stat("solve:lsq" + ("/deep" if F["n"] >= 400 else ""))
+            if err:
+                return bad(f"solve (NLP objective) raised {err}")
+            if "OPTIMAL" not in str(sol.status).upper() or sol.objective_value is None or abs(sol.objective_value - want) > 1e-4 * (1 + abs(want)):
+                return bad("NLP solve: not the hand-computed optimum of the separable quadratic", got=(str(sol.status), sol.objective_value), want=want)
+            if sorted(sol.values) != names:
+                return bad("solution.values (NLP) does not have exactly the elements of the views as keys", got=f"{len(sol.values)} keys",
+                           want=f"{len(names)} keys", missing=sorted(set(names) - set(sol.values))[:6])
+            for nm in names:
+                if mj[nm] > 0 and abs(float(sol.values[nm]) - xs[nm]) > 2e-2:
+                    return bad("NLP solution is not the hand-computed minimiser", var=nm, got=float(sol.values[nm]), want=xs[nm])
+    return None
+
+
+def labels_plan(rng, thorough):
+    """(model, profile, op, wrapper, n, thr, seed, solve): every model below the switch with the thresholds lowered
+    (0 / 3: the explicit-stack code on a cheap formula) and at the default / recursive setting, and a few accumulations
+    above the default switch depth (400) — with and without solves"""
+    out = []
+    profs = ["linear", "lsq", "mixed"]
+    r = rng.randint(0, 2)
+    for i, model in enumerate(LABEL_MODELS):
+        for j in range(3 if thorough else 1):
+            prof = profs[(i + j + r) % 3]
+            out.append((model, prof, rng.choice(["+", "-"]), rng.choice(LABEL_WRAPS), rng.choice([2, 4, 7, 12, 30, 48]),
+                        rng.choice([0, 3, 0, 3, None, BIG]), rng.randint(0, 2 ** 31 - 1), True))
+    deep_models = LABEL_MODELS if thorough else rng.sample(LABEL_MODELS, 3)
+    for i, model in enumerate(deep_models):
+        prof = profs[(i + r) % 3] if thorough else ["linear", "mixed", "lsq"][i % 3]
+        n = rng.choice([401, 450, 900] if thorough else [401, 430])
+        out.append((model, prof, rng.choice(["+", "-"]), rng.choice(LABEL_WRAPS), n, None, rng.randint(0, 2 ** 31 - 1),
+                    prof != "mixed"))
+    if thorough:
+        for model in LABEL_MODELS:
+            out.append((model, "linear", "+", "none", rng.choice([400, 401, 700]), None, rng.randint(0, 2 ** 31 - 1), True))
+    return out
+
+
 def probe_vectorised_degree():
     """(x+1).sum() / X.sum() must have the degree of their term-by-term accumulations"""
     from optyx import VectorVariable, MatrixVariable
@@ -1664,6 +2122,15 @@ def search(ctx, rep):
             r = check_formula(key[0], key[1], int(key[2]), int(key[3]), pt_seed=pseed)
             if r is not None:
                 return r
+    # (1b) same-named views: every model × profile, thresholds lowered, and above the default switch depth
+    for i in range(42):
+        model = LABEL_MODELS[i % len(LABEL_MODELS)]
+        prof = ["linear", "mixed", "lsq"][(i // len(LABEL_MODELS)) % 3]
+        deep = i % 5 == 4
+        r = labels_case(model, prof, rng.choice(["+", "-"]), rng.choice(LABEL_WRAPS), rng.choice([401, 450]) if deep else rng.choice([2, 5, 12, 30]),
+                        None if deep else rng.choice([0, 3, None]), ctx["seed"] * 1000 + i, True)
+        if r is not None:
+            return r
     # (2) the families around them, then everything
     U = gen.Universe(rng)
     fams, _ = families(U, rng)
@@ -1683,6 +2150,11 @@ def replay(payload) -> bool:
     if f.get("family") == "lp-route":
         r = lp_route_case(f["kind"], f["shape"], f["wrapper"], int(f["n"]), int(f["nvars"]), int(f["seed"]), list(f["methods"]))
         print("lp_route_case:", r)
+        return r is None
+    if f.get("family") == "labels":
+        r = labels_case(f["model"], f["profile"], f["op"], f["wrapper"], int(f["n"]),
+                        None if f.get("thr") in (None, "None") else int(f["thr"]), int(f["seed"]), bool(f["solve"]))
+        print("labels_case:", r)
         return r is None
     if f.get("family") == "lifetime":
         r = lifetime_case(f["fam"], f["op"], int(f["n"]), int(f["seed"]), int(f.get("rounds", 5)))
